@@ -199,6 +199,35 @@ theorem readPrefix_none (f : Nat → Option UInt8) {off : Nat} (len : Nat) (h : 
 
 theorem readPrefix_zero (f : Nat → Option UInt8) (off : Nat) : readPrefix f off 0 = [] := rfl
 
+/-- what `readPrefix` means: at most `len` bytes, each the byte present at its offset, stopping only at a missing byte -/
+theorem readPrefix_spec (f : Nat → Option UInt8) : ∀ (len off : Nat),
+    (readPrefix f off len).length ≤ len ∧
+    (∀ i, i < (readPrefix f off len).length → f (off + i) = (readPrefix f off len)[i]?) ∧
+    ((readPrefix f off len).length < len → f (off + (readPrefix f off len).length) = none)
+  | 0, off => by simp [readPrefix]
+  | len + 1, off => by
+    cases hf : f off with
+    | none =>
+      have : readPrefix f off (len + 1) = [] := by simp only [readPrefix, hf]
+      rw [this]; simp [hf]
+    | some b =>
+      have hstep : readPrefix f off (len + 1) = b :: readPrefix f (off + 1) len := by simp only [readPrefix, hf]
+      obtain ⟨h1, h2, h3⟩ := readPrefix_spec f len (off + 1)
+      rw [hstep]
+      refine ⟨by simp only [List.length_cons]; omega, ?_, ?_⟩
+      · intro i hi
+        cases i with
+        | zero => simp [hf]
+        | succ j =>
+          simp only [List.length_cons] at hi
+          have := h2 j (by omega)
+          simp only [List.getElem?_cons_succ]
+          rw [← this]; congr 1; omega
+      · intro hlt
+        simp only [List.length_cons] at hlt ⊢
+        have := h3 (by omega)
+        rw [← this]; congr 1; omega
+
 /-- every offset of `[s, s + n)` holds a byte -/
 def allPresent (f : Nat → Option UInt8) : Nat → Nat → Bool
   | _, 0 => true
